@@ -40,6 +40,10 @@ type Stream struct {
 	// Kind says what standard input is: "" or "pipe" (a pipe), "file" (a
 	// redirected regular file), "chardev" (/dev/null: no data).
 	Kind string `json:"kind,omitempty"`
+	// Offset (Kind "file" only): the descriptor's position when crd starts;
+	// Data holds the whole file, the bytes before Offset were consumed by
+	// somebody else ({ read header; crd ...; } < file).
+	Offset int `json:"offset,omitempty"`
 }
 
 // FileSpec is one entry of the virtual file system.
